@@ -81,8 +81,8 @@ M = [
  ("c13_late_reply_blocks", "C13", "actor.go", "\tcase askSelf.ch <- response:\n\tcase <-askSelf.timeoutCh:\n", "\tcase askSelf.ch <- response:\n"),
  ("c13_close_on_timeout_again", "C13", "actor.go", "\t\tverifAt(\"ask.timeout.fired\")\n", "\t\tverifAt(\"ask.timeout.fired\")\n\t\tdefer close(ch)\n"),
  ("c13_shared_reply_channel", "C13", "actor.go", "\treturn AskNewByOptionsGenerics[T, R](message, make(chan R))", "\tch, _ := askSharedCh.LoadOrStore(fmt.Sprintf(\"%T\", *new(R)), make(chan R, 64))\n\treturn AskNewByOptionsGenerics[T, R](message, ch.(chan R))"),
- ("c09_no_wake_after_panic", "C09", "worker/pool.go", "\t\t\tif (isPanicked || diedInJob || isBelowStandBy) && !workerPoolSelf.IsClosed() {", "\t\t\tif isBelowStandBy && isPanicked && !workerPoolSelf.IsClosed() && workerPoolSelf.workerSizeMaximum > 1 {"),
- ("c09_no_wake_after_goexit", "C09", "worker/pool.go", "\t\t\tif (isPanicked || diedInJob || isBelowStandBy) && !workerPoolSelf.IsClosed() {", "\t\t\tif (isPanicked || isBelowStandBy) && !workerPoolSelf.IsClosed() {"),
+ ("c09_no_wake_after_panic", "C09", "worker/pool.go", "\t\t\tif (isPanicked || diedInJob || isBelowStandBy) && !workerPoolSelf.IsClosed() {", "\t\t\tif isBelowStandBy && isPanicked && !diedInJob && !workerPoolSelf.IsClosed() && workerPoolSelf.workerSizeMaximum > 1 {"),
+ ("c09_no_wake_after_goexit", "C09", "worker/pool.go", "\t\t\tif (isPanicked || diedInJob || isBelowStandBy) && !workerPoolSelf.IsClosed() {", "\t\t\tif (isPanicked || (diedInJob && isPanicked) || isBelowStandBy) && !workerPoolSelf.IsClosed() {"),
  ("c01_clone_named_pointer", "C01", "maybe.go", "\t\tif y.Type() != x.Type() {", "\t\tif false {"),
  ("c09_max_not_enforced", "C09", "worker/pool.go", "\tif workerPoolSelf.workerCount >= maximum ||\n\t\tworkerPoolSelf.workerCount >= workerPoolSelf.workerSizeMaximum {\n\t\treturn\n\t}", "\tif workerPoolSelf.workerCount >= maximum+1 {\n\t\treturn\n\t}"),
  ("c09_job_runs_twice_after_jam", "C09", "worker/pool.go", "\t\t\t\t\tjob()\n\n\t\t\t\t\tworkerPoolSelf.lock.Lock()\n\t\t\t\t\tworkerPoolSelf.workerBusy--", "\t\t\t\t\tjob()\n\t\t\t\t\tif workerPoolSelf.workerBusy > 2 {\n\t\t\t\t\t\tjob()\n\t\t\t\t\t}\n\n\t\t\t\t\tworkerPoolSelf.lock.Lock()\n\t\t\t\t\tworkerPoolSelf.workerBusy--"),
